@@ -85,6 +85,11 @@ GROUPS = [
                           ('swap64', 'big_endian_swap64', 'h_swap64'), ('leswap16', 'little_endian_swap16', 'h_leswap16'),
                           ('leswap32', 'little_endian_swap32', 'h_leswap32'), ('leswap64', 'little_endian_swap64', 'h_leswap64')]
 ] + [
+    G('point_list_write', roots=['gdstk::oasis_write_point_list(gdstk::OasisStream &, Array<gdstk::IntVec2> &, bool)'], entry='h_point_list_write',
+      enforce=None, replace=['oasis_putc', 'oasis_write_unsigned_integer', 'oasis_write_integer', 'oasis_write_2delta', 'oasis_write_3delta', 'oasis_write_gdelta'],
+      kind='bounded', defines={'VF_TAPE_MAX': 16, 'VF_WTAPE_MAX': 128}, unwind=12, timeout=2400, tier='thorough',
+      bound='every point list of up to 4 points (coordinates within 61 bits), open and closed: the in-place deltas, and at every call of a delta writer its precondition (the source asserts: the chosen list type admits the delta); decodability of the whole list is not stated'),
+] + [
     dict(name='gdsii_real_decode', tu='src/gdsii.cpp', spec_headers=['spec/gdsii_real_spec.h'], models=['models/exp2_contract.h'],
          harness='harness/c19_gdsii.c', roots=['gdstk::gdsii_real_to_double'], entry='h_gdsii_decode',
          enforce='gdsii_real_to_double/gdsii_real_to_double_spec', replace_extern=['exp2'], kind='unbounded', uf_fp=True,
